@@ -139,7 +139,7 @@ theorem stream_value_stable (r : MRd) (h : Heap) (hi : RInv r h) (o : Nat) (x : 
   ⟨fun n => next_gckept r h n hi o x hx hg, fun n => peek_gckept r h n hi o x hx hg,
    fun n => skip_gckept r h n hi o x hx hg, release_gckept r h hi o x hx hg,
    fun s e r' h' hrun => (brReadBinary_ok r h s e r' h' hi hrun).2.2.2.2.2 o x hx hg,
-   fun h' he => env_gckept he o x hx hg⟩
+   fun _ he => env_gckept he o x hx hg⟩
 
 /-! ## what the user does with input and results -/
 
